@@ -1,6 +1,7 @@
 import StepModel.ComplexLemmas
 import StepModel.ComplexBuild
 import StepModel.ComplexSafeTop
+import StepModel.ComplexSemHead
 /-!
 # C08 — complex instances are accepted exactly when the supertype constraints allow them
 
@@ -90,6 +91,39 @@ theorem C08_no_crash (c : Collect) (mult parts : List Name) (hc : ∀ h ∈ c, h
 /-- the hypotheses are satisfiable: the emitted tree of the diamond example, request `{a, b, d}` with `d` flagged -/
 example : ∀ k, supports exDiamondTree' [3] [0, 1, 3] ≠ .crash k :=
   C08_no_crash _ _ _ (by decide) (by decide)
+
+-- ------------------------------------------------------------------ the tree construction is right (induction on the expression)
+/-- **Every nesting of ONEOF/AND/ANDOR, every kind of parent list** (supertype head, AND, ANDOR, OR — with and without
+the same-operator flattening): the children `processSubExp` builds for `x` contribute exactly `Sem T x` — AND = union
+of both operands' derivations, ANDOR = one or both, ONEOF = exactly one — where an entity reference means its own tree. -/
+theorem C08_expr_meaning (T : Name → Option Tree) (x : Expr) (p : Parent) (ts : List Tree)
+    (h : exprKids T p x = some ts) (Y : List Name) : CtxDer p (denoteL ts) Y ↔ Sem T x Y :=
+  expr_meaning T x p ts h Y
+
+/-- … and `Sem T x` is: a set of direct subtypes the expression admits by the rule `Spec.Legal` uses (`Expr.admits`),
+with one derivation of each chosen subtype's tree. -/
+theorem C08_sem_admits (T : Name → Option Tree) (x : Expr) (Y : List Name) : Sem T x Y ↔ AdmFam T x.admits Y :=
+  sem_admits T x Y
+
+/-- **The list built for an entity means the entity's own rule of `Spec.Legal`**: it derives exactly `e` together with
+a set of direct subtypes that `Entity.admits` allows (expression ANDOR-ed with the implicit subtypes) and one derivation
+of each of those.  `hagree` (`ImplicitAgree`, decidable, checked on every generated schema): `addImplicitSubs` finds the
+same implicit subtypes as the declarations show — false only under redundant inheritance. -/
+theorem C08_head_meaning (s : Schema) (f : Nat) (e : Entity) (h : Tree) (hh : headOf s (f + 1) e = some h)
+    (hsub : e.subs ≠ [])
+    (hagree : ∀ b, (match e.expr with | none => some [] | some x => exprKids (fun n => entTree s f n) .superHead x) = some b →
+      ImplicitAgree e b) (X : List Name) :
+    Der (denote h) X ↔ PAnd (SameSet [e.name]) (AdmFam (fun n => entTree s f n) e.admits) X :=
+  head_meaning s f e h hh hsub hagree X
+
+/-- a subtype without subtypes means itself; an ABSTRACT sub-supertype means its list; a non-abstract one means itself
+alone or its list (`OR(simple, list)`) -/
+theorem C08_entTree_meaning (s : Schema) (f : Nat) (n : Name) (t : Tree) (ht : entTree s (f + 1) n = some t) (X : List Name) :
+    ∃ e, s.find n = some e ∧
+      (Der (denote t) X ↔
+        if e.subs.isEmpty then SameSet [n] X
+        else ∃ h, headOf s f e = some h ∧ ((e.abstract = false ∧ SameSet [n] X) ∨ Der (denote h) X)) :=
+  entTree_meaning s f n t ht X
 
 -- ------------------------------------------------------------------ regenerated constants the model relies on
 theorem C08_enum_order : markTypeNames = assumedMarkNames ∧ matchTypeNames = assumedMatchNames := by decide
